@@ -135,7 +135,9 @@ var c09DepthShapes = []struct {
 	name string
 	gen  func(n int) string
 }{
-	{"named-recursion", func(n int) string { return fmt.Sprintf("func r(n) { if n == 0 { 0 } else { 1 + r(n - 1) } }; r(%d)", n) }},
+	{"named-recursion", func(n int) string {
+		return fmt.Sprintf("func r(n) { if n == 0 { 0 } else { 1 + r(n - 1) } }; r(%d)", n)
+	}},
 	{"self", func(n int) string { return fmt.Sprintf("(n => if n == 0 { 0 } else { 1 + self(n - 1) })(%d)", n) }},
 	{"mutual", func(n int) string {
 		return fmt.Sprintf("func ev(n) { if n == 0 { true } else { od(n - 1) } }; func od(n) { if n == 0 { false } else { ev(n - 1) } }; ev(%d)", n)
@@ -265,9 +267,35 @@ type c09ChildProg struct {
 	gen      func() string
 	maxDepth int    // 0 = default
 	expect   string // when set: the outcome class must contain this text (the limit must be the one that stops it)
+	cancelAt int    // when set: no deadline; the context reports cancellation from its cancelAt-th poll on (a deterministic depth)
 }
 
-func c09P(name, src string) c09ChildProg { return c09ChildProg{name: name, gen: func() string { return src }} }
+func c09P(name, src string) c09ChildProg {
+	return c09ChildProg{name: name, gen: func() string { return src }}
+}
+
+// c09U is a recursion cancelled on the way down (at a fixed number of context polls, before the depth and nesting
+// limits): what is left is the unwinding, whose cost per level must not grow with the depth.
+func c09U(name, src string) c09ChildProg {
+	return c09ChildProg{name: "unwind-" + name, gen: func() string { return src }, maxDepth: 1 << 30, cancelAt: 250000}
+}
+
+type c09CancelCtx struct {
+	context.Context
+	n, limit int
+	at       time.Duration // CPU time of the process when cancellation was first reported
+}
+
+func (c *c09CancelCtx) Err() error {
+	c.n++
+	if c.n > c.limit {
+		if c.at == 0 {
+			c.at = c09CPU()
+		}
+		return context.Canceled
+	}
+	return nil
+}
 
 func c09ChildPrograms(kind string, quick bool) []c09ChildProg {
 	var out []c09ChildProg
@@ -289,7 +317,9 @@ func c09ChildPrograms(kind string, quick bool) []c09ChildProg {
 				c09ChildProg{name: fmt.Sprintf("calls-%d", n), gen: func() string { return strings.Repeat("f(", n) + "1" + strings.Repeat(")", n) }, maxDepth: 0},
 				c09ChildProg{name: fmt.Sprintf("callchain-%d", n), gen: func() string { return "f" + strings.Repeat("()", n) }, maxDepth: 0},
 				c09ChildProg{name: fmt.Sprintf("dotchain-%d", n), gen: func() string { return "m" + strings.Repeat(".a", n) }, maxDepth: 0},
-				c09ChildProg{name: fmt.Sprintf("mixed-%d", n), gen: func() string { return strings.Repeat("(", n/9000+1) + "1" + strings.Repeat(strings.Repeat("+1", 9000)+")", n/9000+1) }, maxDepth: 0},
+				c09ChildProg{name: fmt.Sprintf("mixed-%d", n), gen: func() string {
+					return strings.Repeat("(", n/9000+1) + "1" + strings.Repeat(strings.Repeat("+1", 9000)+")", n/9000+1)
+				}, maxDepth: 0},
 				c09ChildProg{name: fmt.Sprintf("mixedwide-%d", n), gen: func() string {
 					k := n/30000 + 3 // chains just under the parser's tree-depth limit, nested in parentheses on their left end
 					return strings.Repeat("(", k) + "1" + strings.Repeat(strings.Repeat("+1", 90000)+")", k)
@@ -311,7 +341,12 @@ func c09ChildPrograms(kind string, quick bool) []c09ChildProg {
 			md := md
 			for _, k := range []int{30, 3000} {
 				k := k
-				for _, sh := range [][3]string{{"brackets", "[", "]"}, {"args", "g(", ")"}, {"neg", "-(", ")"}, {"maps", "{1: ", "}"}, {"index", "a[", "]"}, {"plus", "(1 + ", ")"}, {"ifs", "if true { ", " }"}, {"lambdas", "(() => ", ")()"}} {
+				for _, sh := range [][3]string{{"brackets", "[", "]"}, {"args", "g(", ")"}, {"neg", "-(", ")"}, {"maps", "{1: ", "}"}, {"index", "a[", "]"}, {"plus", "(1 + ", ")"}, {"ifs", "if true { ", " }"}, {"lambdas", "(() => ", ")()"},
+					// builtins, statements and index forms whose own Go frames are the large ones
+					{"print", "print(", ")"}, {"println", "println(", ")"}, {"log", "log(", ")"}, {"error", "error(", ")"}, {"catch", "catch(", ")"},
+					{"del", "del(m[", "])"}, {"sliceR", "[1, 2, 3][0:", "]"}, {"sliceL", "[1, 2, 3][", ":3]"}, {"assign", "(x = ", ")"}, {"idxassign", "(a[0] = ", ")"},
+					{"first", "first([", "])"}, {"lenstr", "len(str(", "))"}, {"ext", "max(1, ", ")"}, {"sprintf", "sprintf(\"%v\", ", ")"}, {"forint", "for 1 { ", " }"},
+					{"dot", "{\"k\": ", "}.k"}, {"ifcond", "if (", ") { 1 }"}, {"and", "(true && ", ")"}, {"type", "type(", ")"}} {
 					sh := sh
 					out = append(out, c09ChildProg{name: fmt.Sprintf("heavy-%s-k%d-md%d", sh[0], k, md), gen: func() string { return wrap(sh[1], sh[2], k) }, maxDepth: md})
 				}
@@ -343,6 +378,28 @@ func c09ChildPrograms(kind string, quick bool) []c09ChildProg {
 		}
 		// evaluation that happens outside the main state: macro expansion time, eval(), unjson(), read() then loop
 		out = append(out,
+			// unwinding a deep recursion once the deadline has passed, and showing a deeply nested value, must not
+			// cost more per level the deeper it is
+			c09U("ifcond", "func f(n) { if f(n + 1) { 1 } }; f(0)"),
+			c09U("catchthen", "func f(n) { catch(f(n + 1)); 1 }; f(0)"),
+			c09U("logthen", "func f(n) { log(f(n + 1)); 1 }; f(0)"),
+			c09U("slice", "func f(n) { [1, 2, 3][f(n + 1):f(n)] }; f(0)"),
+			c09U("catch3", "func f(n) { catch(catch(catch(f(n + 1)))) }; f(0)"),
+			c09U("error", "func f(n) { r = catch(f(n + 1)); error(\"e\", n) }; f(0)"),
+			c09U("assign", "func f(n) { "+strings.Repeat("(x = ", 3000)+"f(n + 1)"+strings.Repeat(")", 3000)+" }; f(0)"),
+			c09U("sprintf", "func f(n) { sprintf(\"%v\", catch(f(n + 1))) }; f(0)"),
+			c09U("println", "func f(n) { println(catch(f(n + 1))) }; f(0)"),
+			c09U("json", "func f(n) { json(catch(f(n + 1))) }; f(0)"),
+			c09U("del", "m = {}; func f(n) { del(m[catch(f(n + 1)).value]) }; f(0)"),
+			c09U("mapkey", "func f(n) { {catch(f(n + 1)): 1} }; f(0)"),
+			c09U("logarg", "func f(n) { x = [log(f(n + 1)), n]; x }; f(0)"),
+			c09U("index", "func f(n) { [1, 2, 3][f(n + 1)] }; f(0)"),
+			c09U("forcond", "func f(n) { for f(n + 1) { 1 } }; f(0)"),
+			c09U("not", "func f(n) { !(-(f(n + 1))) }; f(0)"),
+			c09P("show-deep-array", "a = []; for 300000 { a = [a] }; a"),
+			c09P("show-deep-map", "a = {}; for 300000 { a = {1: a} }; println(a)"),
+			c09P("show-deep-mixed", "a = {}; for 200000 { a = [{\"k\": a}, 1] }; print(a, a)"),
+			c09P("use-deep-array", "a = []; for 300000 { a = [a] }; b = a; m = {a: 1}; [a == b, a < b, len(str(a)), json(a) == json(b), m[b]]"),
 			c09P("macro-time-loop", "m = macro(x) { for true { }; quote(unquote(x)) }; m(1)"),
 			c09P("macro-time-recursion", "m = macro(x) { f = func(n) { f(n + 1) }; f(0); quote(unquote(x)) }; m(1)"),
 			c09P("macro-time-growth", "m = macro(x) { a = [1, 2, 3, 4, 5, 6, 7, 8, 9]; for 60 { a = a + a }; quote(unquote(x)) }; m(1)"),
@@ -373,10 +430,10 @@ func c09ChildPrograms(kind string, quick bool) []c09ChildProg {
 	case "mem":
 		for _, n := range []string{"1000000", "100000000", "2147483648", "1152921504606846976", "4611686018427387904", "9223372036854775807", "4611686018427387905", "6148914691236517206"} {
 			out = append(out,
-				c09P("str*" + n, `x = "abcd" * ` + n + "; len(x)"),
-				c09P("arr*" + n, "x = [1, 2, 3, 4] * " + n + "; len(x)"),
-				c09P("range" + n, "x = 0:" + n + "; len(x)"),
-				c09P("negrange" + n, "x = -" + n + ":0; len(x)"),
+				c09P("str*"+n, `x = "abcd" * `+n+"; len(x)"),
+				c09P("arr*"+n, "x = [1, 2, 3, 4] * "+n+"; len(x)"),
+				c09P("range"+n, "x = 0:"+n+"; len(x)"),
+				c09P("negrange"+n, "x = -"+n+":0; len(x)"),
 			)
 		}
 		out = append(out,
@@ -417,7 +474,7 @@ func c09Child(args []string) int {
 		}
 		x := newSess(sessCfg{maxDepth: p.maxDepth})
 		x.opts.MaxDuration = time.Second
-		if strings.HasPrefix(p.name, "heavy-") || strings.HasPrefix(p.name, "limit-") || strings.Contains(p.name, "doubling") || strings.Contains(p.name, "retained") {
+		if strings.HasPrefix(p.name, "heavy-") || strings.HasPrefix(p.name, "limit-") || strings.Contains(p.name, "doubling") || strings.Contains(p.name, "retained") || strings.Contains(p.name, "growth") {
 			// these end by the depth / nesting limit (or kill the process): no deadline in the way, so that the
 			// outcome does not depend on how fast the machine is (a 15 s deadline instead of 1 s; slower shapes end by it)
 			x.opts.MaxDuration = 15 * time.Second
@@ -429,6 +486,30 @@ func c09Child(args []string) int {
 		// without using CPU is caught by the parent's watchdog
 		cpu0 := c09CPU()
 		var r stepRec
+		descent := time.Duration(-1)
+		switch {
+		case p.cancelAt > 0:
+			cc := &c09CancelCtx{Context: context.Background(), limit: p.cancelAt}
+			x.s.Context = cc
+			func() {
+				defer func() {
+					if rr := recover(); rr != nil {
+						r.panicked = true
+						r.errs = []string{fmt.Sprint(rr)}
+						x.s.Reset()
+					}
+				}()
+				pr := parseText([]byte(src), false)
+				if o := object.Value(x.s.Eval(pr.prog)); o.Type() == object.ERROR {
+					r.errs = []string{o.(object.Error).Value}
+				}
+			}()
+			x.s.Context = nil
+			if cc.at > 0 {
+				descent = cc.at - cpu0
+				cpu0 = cc.at // ms below is the unwinding alone
+			}
+		}
 		switch p.name {
 		case "ctx-parent-deadline":
 			ctx, cancel := context.WithTimeout(context.Background(), time.Minute)
@@ -439,7 +520,9 @@ func c09Child(args []string) int {
 			r = x.stepCtx(ctx, src)
 			cancel()
 		default:
-			r = x.step(src)
+			if p.cancelAt == 0 {
+				r = x.step(src)
+			}
 		}
 		el := c09CPU() - cpu0
 		class := "value"
@@ -463,11 +546,19 @@ func c09Child(args []string) int {
 		if p.expect != "" && !strings.Contains(class, p.expect) {
 			class = "UNEXPECTED(" + p.expect + "):" + class
 		}
-		fmt.Printf("C09DONE %s srcmb=%d ms=%d next=%q maxrss_kb=%d class=%s\n", p.name, len(src)>>20, el.Milliseconds(), strings.TrimSpace(nx.out), hwm, class)
+		fmt.Printf("C09DONE %s srcmb=%d ms=%d descent_ms=%d next=%q maxrss_kb=%d class=%s\n", p.name, len(src)>>20, el.Milliseconds(), descent.Milliseconds(), strings.TrimSpace(nx.out), hwm, class)
 		debug.FreeOSMemory()
 	}
 	fmt.Println("C09END")
 	return 0
+}
+
+func c09Tail(s string, n int) string {
+	if len(s) > n {
+		// the start (which program, the first goroutine) and the end
+		return s[:n/2] + " ... " + s[len(s)-n/2:]
+	}
+	return s
 }
 
 func c09CPU() time.Duration {
@@ -503,7 +594,7 @@ func c09Children(c *core.Ctx, bounds *[]string) {
 		}
 	}
 	var wg sync.WaitGroup
-	sem := make(chan struct{}, 6)
+	sem := make(chan struct{}, 2) // x 16 workers: up to 32 children, each up to ~0.5 GB of Go stack
 	var mu sync.Mutex
 	for _, j := range jobs {
 		if !c.MineNoDedup("child", fmt.Sprintf("%s|%s|%d", j.kind, j.prog.name, j.limit)) {
@@ -529,8 +620,13 @@ func c09Children(c *core.Ctx, bounds *[]string) {
 			select {
 			case err = <-done:
 			case <-time.After(180 * time.Second): // watchdog, far beyond deadline + 5 s even on a loaded machine
-				_ = cmd.Process.Kill()
-				err = <-done
+				_ = cmd.Process.Signal(syscall.SIGQUIT) // goroutine dump into the output, for the replay file
+				select {
+				case err = <-done:
+				case <-time.After(10 * time.Second):
+					_ = cmd.Process.Kill()
+					err = <-done
+				}
 				timedOut = true
 			}
 			el := time.Since(t0)
@@ -542,7 +638,8 @@ func c09Children(c *core.Ctx, bounds *[]string) {
 			switch {
 			case timedOut:
 				outcome = "watchdog"
-				c.Report(&core.Viol{Class: j.kind + ":does-not-return", Detail: fmt.Sprintf("%s still running after %v (deadline 1 s)", j.prog.name, el), Case: cs, FindText: j.prog.name})
+				_ = os.WriteFile(filepath.Join(os.TempDir(), "c09-watchdog-"+j.prog.name+".txt"), []byte(out), 0o644)
+				c.Report(&core.Viol{Class: j.kind + ":does-not-return", Detail: fmt.Sprintf("%s still running after %v (deadline 1 s); output: %s", j.prog.name, el, c09Tail(out, 3000)), Case: cs, FindText: j.prog.name})
 			case err != nil || !strings.Contains(out, "C09END"):
 				fatal := firstLine(out)
 				for _, l := range strings.Split(out, "\n") {
@@ -555,6 +652,7 @@ func c09Children(c *core.Ctx, bounds *[]string) {
 				c.Report(&core.Viol{Class: j.kind + ":process-death", Detail: fmt.Sprintf("%s: host process died: %v %s", j.prog.name, err, trunc(fatal, 200)), Case: cs, FindText: j.prog.name})
 			default:
 				var ms, rss, srcmb int
+				descent := -1
 				var next, class string
 				for _, l := range strings.Split(out, "\n") {
 					if strings.HasPrefix(l, "C09DONE ") {
@@ -565,6 +663,8 @@ func c09Children(c *core.Ctx, bounds *[]string) {
 								fmt.Sscanf(kv, "srcmb=%d", &srcmb)
 							case strings.HasPrefix(kv, "ms="):
 								fmt.Sscanf(kv, "ms=%d", &ms)
+							case strings.HasPrefix(kv, "descent_ms="):
+								fmt.Sscanf(kv, "descent_ms=%d", &descent)
 							case strings.HasPrefix(kv, "next="):
 								next = strings.Trim(strings.TrimPrefix(kv, "next="), `"`)
 							case strings.HasPrefix(kv, "maxrss_kb="):
@@ -585,9 +685,19 @@ func c09Children(c *core.Ctx, bounds *[]string) {
 					outcome = "other-panic"
 					c.Report(&core.Viol{Class: j.kind + ":other-panic", Detail: j.prog.name + ": " + class, Case: cs, FindText: j.prog.name})
 				}
-				if ms > 6000+1000*srcmb && !strings.HasPrefix(j.prog.name, "heavy-") && !strings.HasPrefix(j.prog.name, "limit-") && !strings.Contains(j.prog.name, "doubling") && !strings.Contains(j.prog.name, "retained") { // deadline + 5 s + 1 s per MiB of source text (parsing and printing are outside the deadline)
+				if ms > 6000+1000*srcmb && !strings.HasPrefix(j.prog.name, "heavy-") && !strings.HasPrefix(j.prog.name, "limit-") && !strings.Contains(j.prog.name, "doubling") && !strings.Contains(j.prog.name, "retained") && !strings.Contains(j.prog.name, "growth") { // deadline + 5 s + 1 s per MiB of source text (parsing and printing are outside the deadline)
 					outcome = "late"
 					c.Report(&core.Viol{Class: j.kind + ":returns-late", Detail: fmt.Sprintf("%s used %d ms of CPU time with a 1 s deadline", j.prog.name, ms), Case: cs, FindText: j.prog.name})
+				}
+				if j.prog.cancelAt > 0 {
+					switch {
+					case descent < 0:
+						// the recursion ended by something else before the cancellation: the harness's bound is off
+						c.Report(&core.Viol{Class: j.kind + ":HARNESS-cancellation-not-reached", Detail: j.prog.name + ": " + class, Case: cs, FindText: j.prog.name})
+					case ms > 2*descent+500:
+						outcome = "slow-unwinding"
+						c.Report(&core.Viol{Class: j.kind + ":returns-late", Detail: fmt.Sprintf("%s: cancelled at its %d-th poll after %d ms of CPU time, then used %d ms more to return", j.prog.name, j.prog.cancelAt, descent, ms), Case: cs, FindText: j.prog.name})
+					}
 				}
 				if next != "42" {
 					outcome = "unusable"
@@ -782,9 +892,9 @@ var _ = repl.Options{}
 func init() {
 	core.RegisterChild("C09-child", c09Child)
 	core.Register(&core.Check{
-		ID:    "C09",
-		Level: "fault_enumeration",
-		Rule: "(1) cancellation instants enumerated exhaustively: for each program of a family the number N of context polls of a bounded run is measured, then the program is run on a fresh state for every k in 0..min(N,H) with a counting context that reports cancellation from the k-th poll on; oracle: Eval returns an error, at most |program tokens| further polls happen after the instant, the session is usable afterwards. (2) depth limits: MaxDepth values x 8 recursion/nesting shapes x every nesting count around the limit through repl.EvalOne: a monotone threshold, 'max depth' reported as a recovered panic, next input evaluates normally. (3) child processes with GOMEMLIMIT and an address-space limit: deeply nested source texts, default-depth recursions, every growth operator with magnitudes around the memory budget and overflow boundaries, doubling loops, non-terminating loops under a 1 s deadline: the child survives, returns within deadline + 5 s, stays usable, peak RSS <= 4 x limit + 64 MiB. Non-trivial = every case.",
+		ID:          "C09",
+		Level:       "fault_enumeration",
+		Rule:        "(1) cancellation instants enumerated exhaustively: for each program of a family the number N of context polls of a bounded run is measured, then the program is run on a fresh state for every k in 0..min(N,H) with a counting context that reports cancellation from the k-th poll on; oracle: Eval returns an error, at most |program tokens| further polls happen after the instant, the session is usable afterwards. (2) depth limits: MaxDepth values x 8 recursion/nesting shapes x every nesting count around the limit through repl.EvalOne: a monotone threshold, 'max depth' reported as a recovered panic, next input evaluates normally. (3) child processes with GOMEMLIMIT and an address-space limit: deeply nested source texts, default-depth recursions, every growth operator with magnitudes around the memory budget and overflow boundaries, doubling loops, non-terminating loops under a 1 s deadline: the child survives, returns within deadline + 5 s, stays usable, peak RSS <= 4 x limit + 64 MiB. Non-trivial = every case.",
 		Assume:      []string{"wall-clock and RSS oracles use generous constants (deadline + 5 s, 4 x limit + 64 MiB): they only detect gross violations", "cancellation is modelled by a counting context; real timers are only used in part (3)"},
 		QuickCap:    100 * time.Second,
 		ThoroughCap: 20 * time.Minute,
